@@ -1,5 +1,6 @@
 import EpModel.Lemmas.CodecNetIpv6
 import EpModel.Lemmas.CodecNetIpv6Frag
+import EpModel.Lemmas.CodecNetIpv4
 /-
   C08 (network-layer half) — every header value survives encode → decode unchanged.
 
@@ -159,5 +160,142 @@ example : (Ipv6FragmentHeader.fromSlice [6, 0xff, 0xff, 0xff, 1, 2, 3, 4, 9]).ma
     (fun r => (r.1.toBytes, r.2)) = .ok ([6, 0, 0xff, 0xf9, 1, 2, 3, 4], [9]) := by rfl
 
 end Ipv6Frag
+
+/-! ## Ipv4Header (with options) -/
+namespace Ipv4
+open EpModel.Lemmas.CodecNet.Ipv4
+
+/-- `to_bytes` (60 byte array cut by `set_len`) and `write_raw` produce the same
+    `header_len()` = 20 + options bytes; `write` produces them with the checksum field replaced by
+    `calc_header_checksum()` — hence the same bytes exactly when the stored checksum is the
+    computed one (`ChecksumOk`). -/
+theorem encoders_agree (h : Ipv4Header) (wf : h.WF) :
+    h.toBytes = h.writeRaw ∧ h.toBytes.length = h.headerLen ∧
+      h.writeOut = ({ h with headerChecksum := h.calcHeaderChecksum } : Ipv4Header).writeRaw ∧
+      (h.ChecksumOk → h.toBytes = h.writeOut) := by
+  refine ⟨toBytes_eq h wf, toBytes_length h wf, rfl, ?_⟩
+  intro hc
+  rw [toBytes_eq h wf]
+  unfold Ipv4Header.writeOut Ipv4Header.writeInternal
+  rw [← hc]
+
+/-- `write` and `to_bytes` can only differ in the checksum bytes 10–11. -/
+theorem write_differs_only_in_checksum (h : Ipv4Header) (wf : h.WF) :
+    h.writeOut.take 10 = h.toBytes.take 10 ∧ h.writeOut.drop 12 = h.toBytes.drop 12 := by
+  rw [toBytes_eq h wf]
+  unfold Ipv4Header.writeOut Ipv4Header.writeInternal
+  rw [fixedPart_eq h _ wf, fixedPart_eq h _ wf]
+  simp
+
+theorem decode_encode (h : Ipv4Header) (tail : Bytes) (wf : h.WF) :
+    Ipv4Header.fromSlice (h.toBytes ++ tail) = .ok (h, tail) := by
+  unfold Ipv4Header.fromSlice
+  rw [slice_of_toBytes h tail wf]
+  simp only [toHeader_toBytes h wf, Ipv4Header.headerLen]
+  rw [List.drop_left' (toBytes_length h wf)]
+
+/-- the reserved bit written out: bit 7 of byte 6 (flags bit 0) is cleared, nothing else. -/
+theorem maskReserved_spec (b0 b1 b2 b3 b4 b5 b6 : UInt8) (r : Bytes) :
+    maskReserved .ipv4 (b0 :: b1 :: b2 :: b3 :: b4 :: b5 :: b6 :: r)
+      = b0 :: b1 :: b2 :: b3 :: b4 :: b5 :: u8 (b6.toNat &&& 0x7f) :: r :=
+  maskReserved_eq b0 b1 b2 b3 b4 b5 b6 r
+
+/-- re-encoding an accepted byte string reproduces its first `ihl*4` bytes (fixed part and
+    options) except for the reserved flag bit, and decoding again gives the same value. -/
+theorem encode_decode (b : Bytes) (h : Ipv4Header) (rest : Bytes)
+    (hd : Ipv4Header.fromSlice b = .ok (h, rest)) :
+    h.toBytes = maskReserved .ipv4 (b.take h.headerLen) ∧
+      Ipv4Header.fromSlice (h.toBytes ++ rest) = .ok (h, rest) := by
+  obtain ⟨hlen, hver, hihl, hfull, rfl, rfl⟩ := fromSlice_ok b h rest hd
+  have htl : (b.take (bAt b 0 % 16 * 4)).length = bAt b 0 % 16 * 4 := by simp; omega
+  have hwf := toHeader_wf { slice := b.take (bAt b 0 % 16 * 4) } (by rw [htl]; omega)
+    (by rw [htl]; omega) (by rw [htl]; omega)
+  refine ⟨?_, decode_encode _ _ hwf⟩
+  have hhl : (Ipv4HeaderSlice.toHeader { slice := b.take (bAt b 0 % 16 * 4) }).headerLen
+      = bAt b 0 % 16 * 4 := by
+    show 20 + (sub (b.take (bAt b 0 % 16 * 4)) 20
+      ((b.take (bAt b 0 % 16 * 4)).length - 20)).length = _
+    rw [sub_length _ _ _ (by omega)]; omega
+  rw [hhl]
+  generalize hn : bAt b 0 % 16 * 4 = n at *
+  obtain ⟨b0, b, rfl⟩ := exists_cons b (by omega)
+  obtain ⟨b1, b, rfl⟩ := exists_cons b (by simp at hlen; omega)
+  obtain ⟨b2, b, rfl⟩ := exists_cons b (by simp at hlen; omega)
+  obtain ⟨b3, b, rfl⟩ := exists_cons b (by simp at hlen; omega)
+  obtain ⟨b4, b, rfl⟩ := exists_cons b (by simp at hlen; omega)
+  obtain ⟨b5, b, rfl⟩ := exists_cons b (by simp at hlen; omega)
+  obtain ⟨b6, b, rfl⟩ := exists_cons b (by simp at hlen; omega)
+  obtain ⟨b7, b, rfl⟩ := exists_cons b (by simp at hlen; omega)
+  obtain ⟨b8, b, rfl⟩ := exists_cons b (by simp at hlen; omega)
+  obtain ⟨b9, b, rfl⟩ := exists_cons b (by simp at hlen; omega)
+  obtain ⟨b10, b, rfl⟩ := exists_cons b (by simp at hlen; omega)
+  obtain ⟨b11, b, rfl⟩ := exists_cons b (by simp at hlen; omega)
+  obtain ⟨b12, b, rfl⟩ := exists_cons b (by simp at hlen; omega)
+  obtain ⟨b13, b, rfl⟩ := exists_cons b (by simp at hlen; omega)
+  obtain ⟨b14, b, rfl⟩ := exists_cons b (by simp at hlen; omega)
+  obtain ⟨b15, b, rfl⟩ := exists_cons b (by simp at hlen; omega)
+  obtain ⟨b16, b, rfl⟩ := exists_cons b (by simp at hlen; omega)
+  obtain ⟨b17, b, rfl⟩ := exists_cons b (by simp at hlen; omega)
+  obtain ⟨b18, b, rfl⟩ := exists_cons b (by simp at hlen; omega)
+  obtain ⟨b19, b, rfl⟩ := exists_cons b (by simp at hlen; omega)
+  simp only [bAt_cons_zero] at hver hihl hn
+  simp only [List.length_cons] at hfull
+  obtain ⟨m, rfl⟩ : ∃ m, n = m + 20 := ⟨n - 20, by omega⟩
+  simp only [List.take_succ_cons]
+  have hm : (b.take m).length = m := by simp; omega
+  rw [maskReserved_eq]
+  exact toBytes_toHeader _ _ _ _ _ _ _ _ _ _ _ _ _ _ _ _ _ _ _ _ _ (by omega) (by omega)
+    (by have := b0.toNat_lt; omega)
+
+theorem decoded_wf (b : Bytes) (h : Ipv4Header) (rest : Bytes)
+    (hd : Ipv4Header.fromSlice b = .ok (h, rest)) : h.WF := by
+  obtain ⟨hlen, hver, hihl, hfull, rfl, rfl⟩ := fromSlice_ok b h rest hd
+  have htl : (b.take (bAt b 0 % 16 * 4)).length = bAt b 0 % 16 * 4 := by simp; omega
+  exact toHeader_wf _ (by rw [htl]; omega) (by rw [htl]; omega) (by rw [htl]; omega)
+
+theorem slice_eq_struct (b : Bytes) :
+    Ipv4Header.fromSlice b =
+      (Ipv4HeaderSlice.fromSlice b).map (fun s => (s.toHeader, b.drop s.slice.length)) := by
+  cases hs : Ipv4HeaderSlice.fromSlice b with
+  | error e => simp [Ipv4Header.fromSlice, hs, Except.map]
+  | ok s =>
+    have hd : Ipv4Header.fromSlice b = .ok (s.toHeader, b.drop s.toHeader.headerLen) := by
+      simp [Ipv4Header.fromSlice, hs]
+    obtain ⟨hlen, hver, hihl, hfull, hh, hrest⟩ := fromSlice_ok b _ _ hd
+    have hsl : s.slice = b.take (bAt b 0 % 16 * 4) := by
+      unfold Ipv4HeaderSlice.fromSlice at hs
+      simp only [Nat.shiftRight_eq_div_pow, and15] at hs
+      have c1 : ¬ b.length < 20 := by omega
+      have c2 : ¬ (4 ≠ bAt b 0 / 2 ^ 4) := by omega
+      have c3 : ¬ (bAt b 0 % 16 < 5) := by omega
+      have c4 : ¬ (b.length < bAt b 0 % 16 * 4) := by omega
+      simp only [c1, c2, c3, c4, if_false, Except.ok.injEq] at hs
+      rw [← hs]
+    rw [hd, hrest]
+    simp only [Except.map, hsl, List.length_take]
+    have : min (bAt b 0 % 16 * 4) b.length = bAt b 0 % 16 * 4 := by omega
+    rw [this]
+
+/-- slice accessors that are not struct fields, as functions of the slice / the struct. -/
+theorem slice_accessors (s : Ipv4HeaderSlice) :
+    s.isFragmentingPayload = (s.toHeader.moreFragments || decide (0 ≠ s.toHeader.fragmentOffset)) ∧
+      s.ihl = bAt s.slice 0 % 16 ∧ s.version = bAt s.slice 0 / 16 :=
+  ⟨rfl, and15 _, Nat.shiftRight_eq_div_pow _ _⟩
+
+example : Ipv4Header.WF Ipv4Header.sampleMax := by decide
+example : Ipv4Header.sampleMax.options.length = 40 := by rfl
+/-- the extreme sample (40 option bytes) also carries the checksum `write` computes. -/
+example : Ipv4Header.ChecksumOk Ipv4Header.sampleMax := by
+  unfold Ipv4Header.ChecksumOk Ipv4Header.calcHeaderChecksum Ipv4Header.sampleMax
+  simp only []
+  rw [addSlice64_step _ _ (by decide), addSlice64_step _ _ (by decide),
+    addSlice64_step _ _ (by decide), addSlice64_step _ _ (by decide),
+    addSlice64_step _ _ (by decide)]
+  have : List.drop 8 (List.drop 8 (List.drop 8 (List.drop 8 (List.drop 8
+      (List.replicate 40 (255 : UInt8)))))) = [] := by decide
+  rw [this, EpModel.Lemmas.Checksum.addSlice64_nil]
+  decide
+
+end Ipv4
 
 end EpModel.Props.C08Net
